@@ -377,6 +377,8 @@ def atom_text(d, hcount, bracket=False):
     name = el.lower() if ar else el
     if d.get('lower') and el == 'N' and d.get('hcount') == 1:
         return '[nH]'
+    if el == 'H':
+        return '[H]'          # a hydrogen written out as an atom of its own
     if ch == 0 and not bracket:
         return name
     h = '' if hcount == 0 else ('H' if hcount == 1 else 'H%d' % hcount)
